@@ -13,8 +13,10 @@ S == INSTANCE StableAbs WITH W <- {}
 Rec == ndJsonDeserialize(IOEnv.TRACE)
 CONSTANT DbgAt          \* debugging aid: 0 normally; k > 0 makes TLC print the state reached before line k
 
-VARIABLES l, kind
-tvars == <<nd, ed, dir, maxix, stamp, ret, pending, l, kind>>
+VARIABLES l, kind,
+          acyc,      \* TRUE while the container is wrapped in Acyclic<..> (C14)
+          order      \* the topological order Acyclic maintains (nodes_iter), <<>> when not wrapped
+tvars == <<nd, ed, dir, maxix, stamp, ret, pending, l, kind, acyc, order>>
 
 E == Rec[l]
 IsEv(o) == l <= Len(Rec) /\ E.op = o /\ l' = l + 1
@@ -25,14 +27,15 @@ Has(f) == f \in DOMAIN E
 Bind == /\ ret' = E.ret
         /\ NodeCount' = E.nc /\ EdgeCount' = E.ec
         /\ (IF Has("st") THEN StMatchesN(E.st) ELSE TRUE)
-Same == kind' = kind
+Same == kind' = kind /\ UNCHANGED <<acyc, order>>
 
-TraceInit == /\ l = 1 /\ kind = "graph" /\ nd = <<>> /\ ed = <<>> /\ dir = TRUE /\ maxix = 3
+TraceInit == /\ l = 1 /\ kind = "graph" /\ acyc = FALSE /\ order = <<>> /\ nd = <<>> /\ ed = <<>> /\ dir = TRUE /\ maxix = 3
              /\ stamp = 0 /\ ret = <<"s", "ok">> /\ pending = {}
 
 TrReset == /\ IsEv("reset")
            /\ kind' = E.kind /\ dir' = E.directed /\ maxix' = E.maxix
            /\ nd' = <<>> /\ ed' = <<>> /\ stamp' = 0 /\ pending' = {} /\ ret' = <<"s", "ok">>
+           /\ acyc' = FALSE /\ order' = <<>>
 
 \* the index a successful insertion returned (StableAbs takes it as a parameter); -1 when the call failed
 RetIx == IF E.ret[1] \in {"ok_i", "i"} THEN E.ret[2] ELSE -1
@@ -70,10 +73,10 @@ TrMap == IsEv("map") /\ (IF IsG THEN G!Map(E.nmap, E.emap) ELSE S!Map(E.nmap, E.
 TrFilterMap == IsEv("filter_map") /\ (IF IsG THEN G!FilterMap(E.nmap, E.emap) ELSE S!FilterMap(E.nmap, E.emap)) /\ Bind /\ Same
 
 (* conversions between the two containers *)
-TrToStable == /\ IsEv("to_stable") /\ IsG /\ kind' = "stable" /\ ret' = E.ret
+TrToStable == /\ IsEv("to_stable") /\ IsG /\ kind' = "stable" /\ ret' = E.ret /\ UNCHANGED <<acyc, order>>
               /\ UNCHANGED <<nd, ed, dir, maxix, stamp, pending>> /\ Bind
 TrToGraph ==  \* compaction in index order; edges are re-added in index order
-    /\ IsEv("to_graph") /\ ~IsG /\ kind' = "graph"
+    /\ IsEv("to_graph") /\ ~IsG /\ kind' = "graph" /\ UNCHANGED <<acyc, order>>
     /\ LET ns == Asc(LiveN)   es == Asc(LiveE)
            newIx(i) == Cardinality({j \in LiveN : j < i}) IN
        /\ nd' = [j \in 1 .. Len(ns) |-> nd[ns[j] + 1]]
@@ -82,10 +85,69 @@ TrToGraph ==  \* compaction in index order; edges are re-added in index order
        /\ stamp' = stamp + Len(es) + 1
     /\ UNCHANGED <<dir, maxix, pending>> /\ Bind
 
+(* ------------------------------------------------------------------ C14: Acyclic<DiGraph / StableDiGraph>
+   The wrapper never lets a cycle in and keeps a valid topological order.  Which valid order it
+   keeps is not specified: every event logs nodes_iter (`order`) and the spec requires it to be valid. *)
+Succs(a) == {Ed(e).t : e \in Out(a)}
+RECURSIVE ReachC(_)
+ReachC(X) == LET T == X \cup UNION {Succs(u) : u \in X} IN IF T = X THEN X ELSE ReachC(T)
+Reaches(a, b) == b \in ReachC({a})                    \* a path a ~> b (possibly empty)
+HasCycle == \E e \in LiveE : Reaches(Ed(e).t, Ed(e).s)      \* includes self-loops
+PosOf(ord, v) == CHOOSE i \in DOMAIN ord : ord[i] = v
+\* ord lists exactly the live nodes of the NEXT state, each once, every edge forward
+OrderOKN(ord) ==
+    LET live == {i \in 0 .. (Len(nd') - 1) : nd'[i + 1] # -1}
+        les == {e \in 1 .. Len(ed') : ed'[e].w # -1} IN
+    /\ {ord[i] : i \in DOMAIN ord} = live /\ Len(ord) = Cardinality(live)
+    /\ \A e \in les : PosOf(ord, ed'[e].s) < PosOf(ord, ed'[e].t)
+AcBind == /\ order' = E.order /\ OrderOKN(E.order) /\ E.pos_inc /\ E.atpos_ok /\ acyc' = TRUE /\ kind' = kind
+\* a rejected call changes nothing observable, the order included
+AcRejected == UNCHANGED <<nd, ed, dir, maxix, stamp, pending>> /\ order' = order /\ E.order = order /\ acyc' = acyc /\ kind' = kind
+
+TrAcWrap ==       \* Acyclic::try_from_graph / TryFrom: accepts exactly the acyclic graphs
+    /\ IsEv("ac_wrap") /\ ~acyc /\ dir /\ ret' = E.ret
+    /\ UNCHANGED <<nd, ed, dir, maxix, stamp, pending, kind>>
+    /\ IF HasCycle THEN /\ E.ret[1] = "cycle" /\ acyc' = FALSE /\ order' = <<>>
+       ELSE /\ E.ret = <<"s", "ok">> /\ acyc' = TRUE /\ order' = E.order /\ OrderOKN(E.order) /\ E.pos_inc /\ E.atpos_ok
+TrAcUnwrap == /\ IsEv("ac_unwrap") /\ acyc /\ acyc' = FALSE /\ order' = <<>> /\ ret' = E.ret
+              /\ UNCHANGED <<nd, ed, dir, maxix, stamp, pending, kind>>
+TrAcAddNode == /\ IsEv("ac_add_node") /\ acyc
+               /\ (IF IsG THEN G!AddNode(E.w) ELSE IF E.ret[1] = "i" THEN S!AddNodeAt(E.w, E.ret[2], "i") ELSE S!AddNodeFull)
+               /\ Bind /\ AcBind
+\* outcome of an edge insertion through the wrapper
+AcEdgeErr(a, b) == IF a = b THEN "SelfLoop" ELSE IF Reaches(b, a) THEN "Cycle" ELSE "none"
+TrAcTryAddEdge ==
+    /\ IsEv("ac_try_add_edge") /\ acyc /\ NLive(E.a) /\ NLive(E.b)
+    /\ IF AcEdgeErr(E.a, E.b) # "none"
+       THEN ret' = <<"err_s", AcEdgeErr(E.a, E.b)>> /\ ret' = E.ret /\ AcRejected
+       ELSE (IF IsG THEN G!TryAddEdge(E.a, E.b, E.w) ELSE S!TryAddEdge(E.a, E.b, E.w, RetIx)) /\ Bind /\ AcBind
+TrAcTryUpdateEdge ==
+    /\ IsEv("ac_try_update_edge") /\ acyc /\ NLive(E.a) /\ NLive(E.b)
+    /\ IF AcEdgeErr(E.a, E.b) # "none"
+       THEN ret' = <<"err_s", AcEdgeErr(E.a, E.b)>> /\ ret' = E.ret /\ AcRejected
+       ELSE (IF IsG THEN G!TryUpdateEdge(E.a, E.b, E.w) ELSE S!TryUpdateEdge(E.a, E.b, E.w, RetIx)) /\ Bind /\ AcBind
+TrAcBuildAddEdge ==      \* Build::add_edge: None when the edge is refused
+    /\ IsEv("ac_build_add_edge") /\ acyc /\ NLive(E.a) /\ NLive(E.b)
+    /\ IF AcEdgeErr(E.a, E.b) # "none" THEN ret' = <<"none">> /\ ret' = E.ret /\ AcRejected
+       ELSE (IF IsG THEN G!AddEdge(E.a, E.b, E.w) ELSE S!AddEdge(E.a, E.b, E.w, RetIx)) /\ Bind /\ AcBind
+TrAcBuildUpdateEdge ==   \* Build::update_edge: unwraps, i.e. panics when the edge is refused
+    /\ IsEv("ac_build_update_edge") /\ acyc /\ NLive(E.a) /\ NLive(E.b)
+    /\ IF AcEdgeErr(E.a, E.b) # "none" THEN ret' = <<"panic">> /\ ret' = E.ret /\ AcRejected
+       ELSE (IF IsG THEN G!UpdateEdge(E.a, E.b, E.w) ELSE S!UpdateEdge(E.a, E.b, E.w, RetIx)) /\ Bind /\ AcBind
+TrAcRemoveEdge == /\ IsEv("ac_remove_edge") /\ acyc /\ (IF IsG THEN G!RemoveEdge(E.e) ELSE S!RemoveEdge(E.e)) /\ Bind /\ AcBind
+TrAcRemoveNode == /\ IsEv("ac_remove_node") /\ acyc /\ (IF IsG THEN G!RemoveNode(E.a) ELSE S!RemoveNode(E.a)) /\ Bind /\ AcBind
+
+\* extra observation while wrapped: is_valid_edge for node pairs, range() sub-sequences
+AcObsOK(o) ==
+    /\ o.ac.order = order /\ o.ac.pos_inc /\ o.ac.atpos_ok
+    /\ \A i \in DOMAIN o.ac.valid : LET p == o.ac.valid[i] IN p[3] = (p[1] # p[2] /\ ~Reaches(p[2], p[1]))
+    /\ \A i \in DOMAIN o.ac.ranges : LET r == o.ac.ranges[i] IN       \* <<x, y, nodes in get_position(x)..=get_position(y)>>
+            r[3] = SubSeq(order, PosOf(order, r[1]), PosOf(order, r[2]))
+
 \* the IF makes TLC evaluate ObsOK as a state predicate (otherwise its inner disjunctions are expanded
 \* as alternative ways to build the successor state)
 TrObs == /\ IsEv("obs")
-         /\ IF ObsOK(E) THEN UNCHANGED <<nd, ed, dir, maxix, stamp, ret, pending, kind>> ELSE FALSE
+         /\ IF ObsOK(E) /\ (acyc => AcObsOK(E)) THEN UNCHANGED <<nd, ed, dir, maxix, stamp, ret, pending, kind, acyc, order>> ELSE FALSE
 
 TraceNext ==
     \/ TrReset \/ TrTryAddNode \/ TrAddNode \/ TrTryAddEdge \/ TrAddEdge \/ TrTryUpdateEdge \/ TrUpdateEdge
@@ -93,11 +155,14 @@ TraceNext ==
     \/ TrSetNodeWeight \/ TrSetEdgeWeight \/ TrIndexTwiceNE \/ TrIndexTwiceNN \/ TrNoEffect \/ TrIntoEdgeType
     \/ TrRetainBegin \/ TrRetainVisit \/ TrRetainEnd \/ TrExtend \/ TrMap \/ TrFilterMap
     \/ TrToStable \/ TrToGraph \/ TrObs
+    \/ TrAcWrap \/ TrAcUnwrap \/ TrAcAddNode \/ TrAcTryAddEdge \/ TrAcTryUpdateEdge \/ TrAcBuildAddEdge
+    \/ TrAcBuildUpdateEdge \/ TrAcRemoveEdge \/ TrAcRemoveNode
 
 TraceSpec == TraceInit /\ [][TraceNext]_tvars
 
 (* abstract invariants evaluated in every state of every accepted trace *)
 TraceInv == WF /\ (IF IsG THEN G!Compact ELSE S!Canonical) /\ l # DbgAt
+            /\ (acyc => ~HasCycle)            \* C14: the wrapped graph never contains a directed cycle
 
 Matched == TLCGet("stats").diameter - 1
 TraceAccepted ==
